@@ -22,11 +22,13 @@ BOUNDS = {'quick': '4 models, every entry, 20 operators, 3 positions', 'thorough
 
 def models():
     pair = Ini([['Tabulation', [['target', 'LAMMPS'], ['nr', '4'], ['cutoff', '2.0']]],
-                ['Pair', [['O-O', 'as.buck 1000.0 0.3 32.0'], ['U-O', 'cbuck 800.0 0.35'], ['U-U', 'sum(as.bornmayer 850.0 0.35, tf)'], ['Th-Th', 'aa']]],
+                ['Pair', [['O-O', 'as.buck 1000.0 0.3 32.0'], ['U-O', 'cbuck 800.0 0.35'], ['U-U', 'sum(as.bornmayer 850.0 0.35, tf)'], ['Th-Th', 'aa'], ['Zr-Zr', 'Rep_ZrZr']]],
                 ['Potential-Form', [['cbuck(r,A,rho)', 'A*exp(-r/rho) + 1.0/r'], ['helper(r,s)', 's/r^2']]],
                 ['Table-Form:tf', [['x', '0 1 2 3'], ['y', '3 2 1 0.5']]],
                 # a second table form whose section name sorts between the blank-variants of the first
-                ['Table-Form:aa', [['xy', '0 5 1 4 2 2 3 1']]]])
+                ['Table-Form:aa', [['xy', '0 5 1 4 2 2 3 1']]],
+                # a table form whose name contains capitals
+                ['Table-Form:Rep_ZrZr', [['xy', '0 7 1 5 2 2 3 0.5']]]])
     tab = [['nr', '3'], ['cutoff', '2.0'], ['nrho', '3'], ['cutoff_rho', '10.0']]
     eam = Ini([['Tabulation', [['target', 'setfl']] + tab],
                ['EAM-Embed', [['Cu', '>=0 as.polynomial 0.2 -1.3 0.02'], ['Al', '>=0 as.polynomial 0.1 -1.0 0.01']]],
@@ -43,7 +45,10 @@ def models():
     adp.section('Tabulation')[1][0][1] = 'eam_adp'
     adp.sections.append(['EAM-ADP-Dipole', [['Al-Al', '>=0 as.polynomial 0.5 -0.2 0.01'], ['Cu-Al', '>=0 as.polynomial 0.6 -0.2 0.01']]])
     adp.sections.append(['EAM-ADP-Quadrupole', [['Cu-Cu', '>=0 as.morse 0.75 1.3 0.2'], ['Al-Cu', '>=0 as.morse 0.85 1.3 0.21']]])
-    return {'pair': pair, 'eam': eam, 'fs': fs, 'rev': rev, 'adp': adp}
+    # species labels that differ only in letter case are different species: CA-Ca is a hetero pair, its reverse a duplicate
+    case = Ini([['Tabulation', [['target', 'LAMMPS'], ['nr', '4'], ['cutoff', '2.0']]],
+                ['Pair', [['CA-Ca', '>=0 as.polynomial 1.0 2.0'], ['o-O', '>=0 as.polynomial 2.0 3.0'], ['Ca-O', '>=0 as.polynomial 3.0 4.0'], ['O-O', '>=0 as.polynomial 4.0 5.0']]]])
+    return {'pair': pair, 'eam': eam, 'fs': fs, 'rev': rev, 'adp': adp, 'case': case}
 
 
 ALT = {'EAM-ADP-Dipole': '>=0 as.polynomial 6.5 -0.5', 'EAM-ADP-Quadrupole': '>=0 as.polynomial 5.5 0.5', 'Pair': '>=0 as.polynomial 7.5 -0.25', 'EAM-Embed': '>=0 as.polynomial 9.5 -0.75', 'EAM-Density': '>=0 as.polynomial 8.5 0.125',
